@@ -157,3 +157,44 @@ package bt
 //@   loop 4 invariant (spec.out_scripts_ok txCopy)
 //@   loop 5 invariant (spec.clone_ok txCopy)
 //@   loop 5 invariant (spec.out_scripts_ok txCopy)
+
+// ---- amounts, fees and change (C10, C11) ----
+//@ func bt.(*Tx).TotalInputSatoshis
+//@   pure
+//@   requires (spec.inputs_nonnil tx)
+//@   ensures[C11.total_in] (= total (mod (spec.sum_in tx) 18446744073709551616))
+//@   loop 0 invariant (= total (mod (spec.sum_in_k tx (+ rangeindex 1)) 18446744073709551616))
+//@ func bt.(*Tx).TotalOutputSatoshis
+//@   pure
+//@   requires (spec.outputs_nonnil tx)
+//@   ensures[C11.total_out] (= total (mod (spec.sum_out tx) 18446744073709551616))
+//@   loop 0 invariant (= total (mod (spec.sum_out_k tx (+ rangeindex 1)) 18446744073709551616))
+
+//@ func bt.(*FeeQuote).Fee
+//@   opt nilrecv ok
+//@   ensures[C11.fee_lookup] (=> (= err nil) (and (not (nil? result)) (not (nil? f)) (= result (spec.quote_fee f t))))
+
+//@ func bt.(*Tx).AddOutput
+//@   bytes array
+//@   ensures[C10.addoutput] (and (= (len (. tx Outputs)) (+ (old (len (. tx Outputs))) 1)) (= (at (. tx Outputs) (old (len (. tx Outputs)))) output))
+//@   ensures[C10.addoutput_prefix] (forall ((k Int)) (=> (and (<= 0 k) (< k (old (len (. tx Outputs))))) (= (at (. tx Outputs) k) (old (at (. tx Outputs) k)))))
+
+// sizes: abstract here (tied to the serialised length under C11)
+//@ func bt.(*Tx).EstimateSizeWithTypes
+//@   trusted "abstract size functions est_std/est_data; bounded by 2^41"
+//@   ensures (=> (= err nil) (and (not (nil? result)) (fresh result) (= (. result TotalStdBytes) (old (spec.est_std tx))) (= (. result TotalDataBytes) (old (spec.est_data tx))) (<= 0 (old (spec.est_std tx))) (<= (old (spec.est_std tx)) 2199023255552) (<= 0 (old (spec.est_data tx))) (<= (old (spec.est_data tx)) 2199023255552)))
+//@   assigns
+
+//@ func bt.(*Tx).change
+//@   bytes array
+//@   int-overflow check
+//@   requires (spec.inputs_nonnil tx) (spec.outputs_nonnil tx)
+//@   requires (< (spec.sum_in tx) 18446744073709551616) (< (spec.sum_out tx) 18446744073709551616) (<= 0 (spec.sum_in tx)) (<= 0 (spec.sum_out tx))
+//@   requires (=> (not (nil? f)) (spec.wf_quote f))
+//@   requires (=> (and (not (nil? output)) (not (nil? (. output lockingScript)))) (<= (len (. output lockingScript)) 4294967295))
+//@   ensures[C10.never_creates_value] (=> (and (= err nil) r1) (and (<= (+ (old (spec.sum_out tx)) r0) (old (spec.sum_in tx))) (> r0 1)))
+//@   ensures[C10.nochange_tx_untouched] (=> (and (= err nil) (not r1)) (= (. tx Outputs) (old (. tx Outputs))))
+//@   ensures[C10.nochange_only_when_dust] (=> (and (= err nil) (not r1) (not (nil? output)) (. output newOutput) (not (nil? (. output lockingScript)))) (<= (- (- (old (spec.sum_in tx)) (old (spec.sum_out tx))) (spec.quoted f (+ (old (spec.est_std tx)) (spec.new_output_bytes (len (. output lockingScript)) (old (len (. tx Outputs))))) (old (spec.est_data tx)))) 1))
+//@   ensures[C10.fee_left_new_output] (=> (and (= err nil) r1 (not (nil? output)) (. output newOutput) (not (nil? (. output lockingScript)))) (= (- (old (spec.sum_in tx)) (+ (old (spec.sum_out tx)) r0)) (spec.quoted f (+ (old (spec.est_std tx)) (spec.new_output_bytes (len (. output lockingScript)) (old (len (. tx Outputs))))) (old (spec.est_data tx)))))
+//@   ensures[C10.fee_left_existing_output] (=> (and (= err nil) r1 (nil? output)) (and (= (- (old (spec.sum_in tx)) (+ (old (spec.sum_out tx)) r0)) (spec.quoted f (old (spec.est_std tx)) (old (spec.est_data tx)))) (= (. tx Outputs) (old (. tx Outputs)))))
+//@   ensures[C10.change_output_appended] (=> (and (= err nil) r1 (not (nil? output)) (. output newOutput)) (and (= (len (. tx Outputs)) (+ (old (len (. tx Outputs))) 1)) (= (. (at (. tx Outputs) (old (len (. tx Outputs)))) Satoshis) r0) (= (. (at (. tx Outputs) (old (len (. tx Outputs)))) LockingScript) (. output lockingScript)) (forall ((k Int)) (=> (and (<= 0 k) (< k (old (len (. tx Outputs))))) (= (at (. tx Outputs) k) (old (at (. tx Outputs) k)))))))
